@@ -221,6 +221,51 @@ def check_determinism(b, rexpy, examples, o, size, seed, w):
             b.check('C14.seeded-result-independent-of-global-prng', r == r2, w, '%r vs %r' % (r, r2))
 
 
+def run_coverage_matrices(b):
+    """
+    C18 on the module functions themselves, which take the patterns and examples as arguments:
+    EVERY match matrix of <= 3 patterns x 3 examples x frequencies in {1, 3} x dedup on/off
+    (patterns are alternations of single letters, so any 0/1 matrix is realisable).
+    """
+    from tdda.rexpy import rexpy
+    letters = ['a', 'b', 'c']
+    subsets = [[l for k, l in enumerate(letters) if m >> k & 1] for m in range(8)]
+    pats_for = lambda S: '^(%s)$' % '|'.join(S) if S else '^(zzz)$'
+    for npat in (1, 2, 3):
+        for sets in itertools.product(subsets, repeat=npat):
+            pats = [pats_for(S) for S in sets]
+            if len(set(pats)) != len(pats):
+                continue
+            for freqs in itertools.product((1, 3), repeat=3):
+                ex = rexpy.Examples(list(letters), list(freqs))
+                for dedup in (False, True):
+                    w = {'patterns': pats, 'freqs': list(freqs), 'dedup': dedup}
+                    b.case(('matrix', tuple(pats), freqs, dedup))
+                    ok, cov = b.guarded('C18.rex_coverage.noraise', lambda: rexpy.rex_coverage(pats, ex, dedup), w)
+                    if ok:
+                        want = [sum((1 if dedup else f) for l, f in zip(letters, freqs) if l in S) for S in sets]
+                        b.check('C18.coverage-equals-true-match-counts', list(cov) == want, w, '%r vs %r' % (cov, want))
+                    ok, inc = b.guarded('C18.rex_incremental_coverage.noraise',
+                                        lambda: rexpy.rex_incremental_coverage(pats, ex, dedup), w)
+                    if not ok:
+                        continue
+                    vals = list(inc.values())
+                    matched = set(l for S in sets for l in S)
+                    total = sum((1 if dedup else f) for l, f in zip(letters, freqs) if l in matched)
+                    b.check('C18.incremental.non-increasing', all(x >= y for x, y in zip(vals, vals[1:])), w, repr(vals))
+                    b.check('C18.incremental.sums-to-total', sum(vals) == total, w, 'sum %r, matched total %r' % (sum(vals), total))
+                    left = {l: f for l, f in zip(letters, freqs)}
+                    okc = True
+                    for r, v in inc.items():
+                        S = sets[pats.index(r)]
+                        got = [l for l in list(left) if l in S]
+                        if sum((1 if dedup else left[l]) for l in got) != v:
+                            okc = False
+                        for l in got:
+                            del left[l]
+                    b.check('C18.incremental.each-example-credited-once', okc, w, repr(dict(inc)))
+
+
 def _work(args):
     chunk, props, seed = args
     from tdda.rexpy import rexpy
@@ -231,6 +276,8 @@ def _work(args):
         size = sizes[si]
         w = {'examples': list(examples), 'options': o, 'size_variant': si, 'seed': sd}
         b.case(('extract', tuple(examples), oi, si, sd))
+        # unseeded sampling draws from the global generator: make every case reproducible
+        random.seed(repr((tuple(examples), oi, si, sd, seed)))
         if any(p in props for p in ('C03', 'C13', 'C18')):
             check_extract(b, rexpy, list(examples), o, size, sd, props, dict(w))
         if 'C14' in props and 'max_patterns' not in o:
@@ -259,6 +306,8 @@ def gen_cases(props, tier, seed):
     base.append(['x-' * 55])
     base.append([str(i) * (i % 5 + 1) for i in range(40)])
     base.append(['%c%d' % (chr(97 + i % 26), i) for i in range(130)])
+    # the > 99 fragment fallback ^.{n}$ overlapping with another expression
+    base.append(['x-' * 60, 'y.' * 60, 'z' * 120, 'z' * 120, 'y' * 120, 'xyz', 'xyq', 'xyq', 'A-1', 'B-2'])
     if 'C14' in props and not any(p in props for p in ('C03', 'C13', 'C18')):
         base = [e for e in base if len(e) <= 4 or len(e) > 20][: (220 if tier == 'quick' else 1500)]
     for ex in base:
@@ -271,7 +320,7 @@ def gen_cases(props, tier, seed):
             sis = range(6)
         for oi in ois:
             for si in sis:
-                for sd in ((None, 7) if si in (1, 2, 3) else (None,)):
+                for sd in ((None, 7, 0) if si in (1, 2, 3) else (None,)):
                     cases.append((ex, oi, si, sd))
     return cases
 
@@ -300,6 +349,8 @@ def run(props, tier, seed):
     total.samples = total.samples[:6]
     if 'C03' in props:
         run_pandas_forms(total)
+    if 'C18' in props:
+        run_coverage_matrices(total)
     return total
 
 
